@@ -20,7 +20,7 @@ from inferno.core.infrastructure import RecordTensor
 
 from mc.common import Tally
 from mc.pool import run_shards
-from checks.c03_neurons import HP
+from checks.c03_neurons import HP, shifted_hp
 
 ID = "C14"
 LEVEL = "model_checking"
@@ -110,7 +110,7 @@ class NeuronSpec:
         yield ("dtype", "float64")
 
     def make(self, cfg):
-        n = self.cls((2,), cfg["dt"], refrac_t=2.0, batch_size=cfg["batchsz"], **HP[self.kind][0])
+        n = self.cls((2,), cfg["dt"], refrac_t=2.0, batch_size=cfg["batchsz"], **shifted_hp(self.kind))
         if cfg["dtype"] == "float64":
             n = n.to(torch.float64)
         return n
@@ -122,7 +122,8 @@ class NeuronSpec:
         return {"dt": c.dt, "batchsz": c.batchsz, "dtype": "+".join(sorted(dts))}
 
     def behaviour(self, c, hist, cfg):
-        c.clear()
+        # no clear() first: the setters ran on a fresh component, whose state must already be the initial one; the
+        # state is put back afterwards so that the next history starts from it
         B = cfg["batchsz"]
         scale = abs(HP[self.kind][0].get("thresh_v", HP[self.kind][0].get("thresh_eq_v")) - HP[self.kind][0]["rest_v"])
         outs = []
@@ -133,6 +134,7 @@ class NeuronSpec:
             outs.append(c(x).clone())
             outs.append(c.voltage.clone())
             outs.append(c.refrac.clone())
+        c.clear()
         return outs
 
 
